@@ -272,7 +272,15 @@ def main(prop, tier):
                 x = v["send"]; it = [i for i in v["line"]["items"] if i["id"] == x["s"]["id"]]
                 print("  clause %s: send %s result=%s reply=%s; received %d time(s): %s" % (v["clause"], json.dumps(x["s"]), x["res"], x["reply"][:20], len(it), json.dumps(it)[:300]))
             else:
-                print("  clause %s: line %s" % (v["clause"], json.dumps(v["line"])[:600]))
+                e = v["line"]
+                if e.get("ev") == "stream":
+                    seq = e.get("seq", [])
+                    breaks = [(seq[i], seq[i + 1]) for i in range(len(seq) - 1) if seq[i + 1] != seq[i] + 1]
+                    dups = len(seq) - len(set(seq))
+                    print("  clause %s: case %s pool %s delay %s pair %s (sender residue %s -> receiver residue %s): %d of %d messages arrived, %d twice, %d send errors, lossy=%s; order breaks at %s" % (
+                        v["clause"], e.get("p"), e.get("pool"), e.get("delay"), e.get("pair"), e.get("fromr"), e.get("tor"), len(set(seq)), e.get("n"), dups, e.get("senderrs"), e.get("lossy"), breaks[:8]))
+                else:
+                    print("  clause %s: line %s" % (v["clause"], json.dumps(e)[:600]))
         print("%s %s: %d cases (%d sends, %d streams), %d validated against spec/Net.tla, %d violations, %.0fs" % (prop, tier, len(cases), nsends, nstream, validated, len(violations), time.time() - t0))
         return 1 if violations else 0
     finally:
